@@ -51,16 +51,17 @@ namespace GA.Own
 theorem perm_of_counts {l r : List Id} (h : ∀ a, l.count a = r.count a) : l.Perm r :=
   List.perm_iff_count.mpr h
 
-/-- what a source owes: per step, everything it owned or was handed is given away, dropped,
-    yielded, or still owned; its destructor drops exactly what it owns. -/
-structure Contract {σ : Type} (S : Src σ) (owned : σ → List Id) : Prop where
-  yield : ∀ s evs x s', S.step s = .yield evs x s' →
+/-- what a source owes: from every state satisfying its invariant, per step, everything it owned
+    or was handed is given away, dropped, yielded, or still owned, and the invariant is kept; its
+    destructor drops exactly what it owns. -/
+structure Contract {σ : Type} (S : Src σ) (owned : σ → List Id) (inv : σ → Prop) : Prop where
+  yield : ∀ s evs x s', inv s → S.step s = .yield evs x s' →
     (gives evs ++ drops evs ++ (if S.owns then [x] else []) ++ owned s').Perm (owned s ++ takes evs) ∧
-      uninitDrops evs = 0
-  done : ∀ s evs s', S.step s = .done evs s' →
-    (gives evs ++ drops evs ++ owned s').Perm (owned s ++ takes evs) ∧ uninitDrops evs = 0
-  panic : ∀ s evs s', S.step s = .panic evs s' →
-    (gives evs ++ drops evs ++ owned s').Perm (owned s ++ takes evs) ∧ uninitDrops evs = 0
+      uninitDrops evs = 0 ∧ inv s'
+  done : ∀ s evs s', inv s → S.step s = .done evs s' →
+    (gives evs ++ drops evs ++ owned s').Perm (owned s ++ takes evs) ∧ uninitDrops evs = 0 ∧ inv s'
+  panic : ∀ s evs s', inv s → S.step s = .panic evs s' →
+    (gives evs ++ drops evs ++ owned s').Perm (owned s ++ takes evs) ∧ uninitDrops evs = 0 ∧ inv s'
   drop : ∀ s, drops (S.dropEv s) = owned s ∧ gives (S.dropEv s) = [] ∧ takes (S.dropEv s) = [] ∧
     uninitDrops (S.dropEv s) = 0
 
@@ -76,48 +77,52 @@ def FillRes.rest {σ : Type} (owned : σ → List Id) : FillRes σ → List Id
 /-- **Fill-loop ledger** (for every source state, every partial output, every number of slots):
     all ids the builder and the source owned, plus everything caller code handed in, end up —
     exactly once — given away, dropped, in the output, or still owned by the source. -/
-theorem fillLoop_ledger {σ : Type} (S : Src σ) (owned : σ → List Id) (hc : Contract S owned)
-    (hown : S.owns = true) (k : Nat) (s : σ) (out : List Id) :
-    (gives (fillLoop true S k s out).1 ++ drops (fillLoop true S k s out).1 ++
-        (fillLoop true S k s out).2.ids ++ (fillLoop true S k s out).2.rest owned).Perm
-      (out ++ owned s ++ takes (fillLoop true S k s out).1) ∧
-    uninitDrops (fillLoop true S k s out).1 = 0 := by
+theorem fillLoop_ledger {σ : Type} (S : Src σ) (owned : σ → List Id) (inv : σ → Prop)
+    (hc : Contract S owned inv) (hown : S.owns = true) (k : Nat) (s : σ) (hi : inv s) (out : List Id) :
+    (gives (fillLoop true true S k s out).1 ++ drops (fillLoop true true S k s out).1 ++
+        (fillLoop true true S k s out).2.ids ++ (fillLoop true true S k s out).2.rest owned).Perm
+      (out ++ owned s ++ takes (fillLoop true true S k s out).1) ∧
+    uninitDrops (fillLoop true true S k s out).1 = 0 ∧
+    (∀ o s', (fillLoop true true S k s out).2 = .full o s' → inv s') := by
   induction k generalizing s out with
   | zero =>
-    simp only [fillLoop, FillRes.ids, FillRes.rest, gives_nil, drops_nil, takes_nil, uninit_nil]
-    exact ⟨by simp, trivial⟩
+    simp only [fillLoop, ↓reduceIte, FillRes.ids, FillRes.rest, gives_nil, drops_nil, takes_nil, uninit_nil]
+    refine ⟨by simp, trivial, ?_⟩
+    intro o s' h; cases h; exact hi
   | succ k ih =>
     cases hs : S.step s with
     | yield evs x s' =>
-      obtain ⟨hp, hu⟩ := hc.yield s evs x s' hs
-      obtain ⟨ihp, ihu⟩ := ih s' (out ++ [x])
+      obtain ⟨hp, hu, hi'⟩ := hc.yield s evs x s' hi hs
+      obtain ⟨ihp, ihu, ihi⟩ := ih s' hi' (out ++ [x])
       simp only [fillLoop, hs, gives_append, drops_append, takes_append, uninit_append, hu, ihu]
-      refine ⟨perm_of_counts fun a => ?_, trivial⟩
+      refine ⟨perm_of_counts fun a => ?_, trivial, ihi⟩
       have c1 := List.perm_iff_count.mp hp a
       have c2 := List.perm_iff_count.mp ihp a
       simp only [hown, if_true, List.count_append] at c1 c2 ⊢
       omega
     | done evs s' =>
-      obtain ⟨hp, hu⟩ := hc.done s evs s' hs
+      obtain ⟨hp, hu, _⟩ := hc.done s evs s' hi hs
       simp only [fillLoop, hs, FillRes.ids, FillRes.rest, hu]
-      refine ⟨perm_of_counts fun a => ?_, trivial⟩
-      have c1 := List.perm_iff_count.mp hp a
-      simp only [List.count_append] at c1 ⊢
-      omega
+      refine ⟨perm_of_counts fun a => ?_, trivial, ?_⟩
+      · have c1 := List.perm_iff_count.mp hp a
+        simp only [List.count_append] at c1 ⊢
+        omega
+      · intro o s'' h; cases h
     | panic evs s' =>
-      obtain ⟨hp, hu⟩ := hc.panic s evs s' hs
+      obtain ⟨hp, hu, _⟩ := hc.panic s evs s' hi hs
       obtain ⟨d1, d2, d3, d4⟩ := hc.drop s'
       simp only [fillLoop, hs, FillRes.ids, FillRes.rest, builderDrop_true, gives_append, drops_append,
         takes_append, uninit_append, drops_map_drop, gives_map_drop, takes_map_drop, uninit_map_drop,
         d1, d2, d3, d4, hu, List.append_nil]
-      refine ⟨perm_of_counts fun a => ?_, trivial⟩
-      have c1 := List.perm_iff_count.mp hp a
-      simp only [List.count_append, List.count_nil] at c1 ⊢
-      omega
+      refine ⟨perm_of_counts fun a => ?_, trivial, ?_⟩
+      · have c1 := List.perm_iff_count.mp hp a
+        simp only [List.count_append, List.count_nil] at c1 ⊢
+        omega
+      · intro o s'' h; cases h
 
 /-- the fill loop never writes more than the number of destination slots, and `full` means all -/
 theorem fillLoop_len {σ : Type} (wbc : Bool) (S : Src σ) (k : Nat) (s : σ) (out : List Id) :
-    match (fillLoop wbc S k s out).2 with
+    match (fillLoop wbc true S k s out).2 with
     | .full o _ => o.length = out.length + k
     | .short o _ => o.length < out.length + k
     | .panicked => True := by
@@ -129,9 +134,25 @@ theorem fillLoop_len {σ : Type} (wbc : Bool) (S : Src σ) (k : Nat) (s : σ) (o
       simp only [fillLoop, hs]
       have := ih s' (out ++ [x])
       revert this
-      cases (fillLoop wbc S k s' (out ++ [x])).2 <;> simp <;> omega
+      cases (fillLoop wbc true S k s' (out ++ [x])).2 <;> simp <;> omega
     | done evs s' => simp [fillLoop, hs]
     | panic evs s' => simp [fillLoop, hs]
+
+/-- a source that never ends cannot leave the fill loop short -/
+theorem fillLoop_not_short {σ : Type} (wbc : Bool) (S : Src σ)
+    (hnd : ∀ s evs s', S.step s ≠ .done evs s') (k : Nat) (s : σ) (out : List Id) (o : List Id) (s' : σ) :
+    (fillLoop wbc true S k s out).2 ≠ .short o s' := by
+  induction k generalizing s out with
+  | zero => simp [fillLoop]
+  | succ k ih =>
+    cases hs : S.step s with
+    | yield evs x s'' => simp only [fillLoop, hs]; exact ih s'' (out ++ [x])
+    | done evs s'' => exact absurd hs (hnd s evs s'')
+    | panic evs s'' => simp [fillLoop, hs]
+
+theorem genSrc_never_done (f : Nat → Option Id) (s : Nat) (evs : List Ev) (s' : Nat) :
+    (genSrc f).step s ≠ .done evs s' := by
+  simp only [genSrc]; cases f s <;> simp
 
 /-- canonical reading of the `try_from_iter` conditions -/
 def canonFrags : CollectFrags where
@@ -140,12 +161,15 @@ def canonFrags : CollectFrags where
   isFull pos n := decide (pos = n)
   fullBeforePoll := true
   writeBeforeCount := true
+  destFirst := true
+  finishAfterProbe := true
 
 /-- **`try_from_iter` ledger** over any contract-abiding source, any size hint (truthful or not):
     every id is accounted for exactly once on every path (`Ok`, `Err` short, `Err` long, `Err` by
     hint, panic at any poll), and no uninitialised slot is ever dropped or returned. -/
-theorem tryFromIter_ledger {σ : Type} (S : Src σ) (owned : σ → List Id) (hc : Contract S owned)
-    (hown : S.owns = true) (n : Nat) (hint : Nat × Option Nat) (s0 : σ) :
+theorem tryFromIter_ledger {σ : Type} (S : Src σ) (owned : σ → List Id) (inv : σ → Prop)
+    (hc : Contract S owned inv) (hown : S.owns = true) (n : Nat) (hint : Nat × Option Nat) (s0 : σ)
+    (hi : inv s0) :
     (gives (tryFromIter canonFrags S n hint s0).1 ++ drops (tryFromIter canonFrags S n hint s0).1 ++
         (tryFromIter canonFrags S n hint s0).2.ids).Perm
       (owned s0 ++ takes (tryFromIter canonFrags S n hint s0).1) ∧
@@ -155,20 +179,20 @@ theorem tryFromIter_ledger {σ : Type} (S : Src σ) (owned : σ → List Id) (hc
   · obtain ⟨d1, d2, d3, d4⟩ := hc.drop s0
     simp [hr, d1, d2, d3, d4, Res.ids]
   · simp only [hr, Bool.false_eq_true, if_false]
-    have hl := fillLoop_ledger S owned hc hown n s0 []
+    have hl := fillLoop_ledger S owned inv hc hown n s0 hi []
     have hlen := fillLoop_len true S n s0 []
     simp only [canonFrags] at *
     revert hl hlen
-    cases hf : fillLoop true S n s0 [] with
+    cases hf : fillLoop true true S n s0 [] with
     | mk tr r =>
       cases r with
       | panicked =>
         simp only [FillRes.ids, FillRes.rest, Res.ids, List.append_nil, List.nil_append]
-        intro hl _; exact hl
+        intro hl _; exact ⟨hl.1, hl.2.1⟩
       | short out s =>
         simp only [FillRes.ids, FillRes.rest, Res.ids, List.nil_append, List.length_nil, Nat.zero_add,
           Bool.not_true, Bool.and_false, Bool.false_eq_true, if_false]
-        intro ⟨hp, hu⟩ _
+        intro ⟨hp, hu, _⟩ _
         obtain ⟨d1, d2, d3, d4⟩ := hc.drop s
         simp only [gives_append, drops_append, takes_append, uninit_append, drops_map_drop, gives_map_drop,
           takes_map_drop, uninit_map_drop, d1, d2, d3, d4, hu, List.append_nil]
@@ -178,13 +202,14 @@ theorem tryFromIter_ledger {σ : Type} (S : Src σ) (owned : σ → List Id) (hc
         omega
       | full out s =>
         simp only [FillRes.ids, FillRes.rest, Res.ids, List.nil_append, List.length_nil, Nat.zero_add]
-        intro ⟨hp, hu⟩ hlen
+        intro ⟨hp, hu, hinv⟩ hlen
+        have his : inv s := hinv out s rfl
         simp only [hlen, decide_true, Bool.not_true, Bool.false_eq_true, if_false]
         cases hs : S.step s with
         | yield evs x s' =>
-          obtain ⟨sp, su⟩ := hc.yield s evs x s' hs
+          obtain ⟨sp, su, _⟩ := hc.yield s evs x s' his hs
           obtain ⟨d1, d2, d3, d4⟩ := hc.drop s'
-          simp only [hown, if_true, gives_append, drops_append, takes_append, uninit_append, drops_map_drop,
+          simp only [hown, if_true, ↓reduceIte, gives_append, drops_append, takes_append, uninit_append, drops_map_drop,
             gives_map_drop, takes_map_drop, uninit_map_drop, d1, d2, d3, d4, hu, su, List.append_nil, Res.ids,
             drops, gives, takes, uninitDrops]
           refine ⟨perm_of_counts fun a => ?_, trivial⟩
@@ -193,7 +218,7 @@ theorem tryFromIter_ledger {σ : Type} (S : Src σ) (owned : σ → List Id) (hc
           simp only [hown, if_true, List.count_append, List.count_nil] at c1 c2 ⊢
           omega
         | done evs s' =>
-          obtain ⟨sp, su⟩ := hc.done s evs s' hs
+          obtain ⟨sp, su, _⟩ := hc.done s evs s' his hs
           obtain ⟨d1, d2, d3, d4⟩ := hc.drop s'
           simp only [gives_append, drops_append, takes_append, uninit_append, d1, d2, d3, d4, hu, su,
             List.append_nil, Res.ids]
@@ -203,9 +228,9 @@ theorem tryFromIter_ledger {σ : Type} (S : Src σ) (owned : σ → List Id) (hc
           simp only [List.count_append, List.count_nil] at c1 c2 ⊢
           omega
         | panic evs s' =>
-          obtain ⟨sp, su⟩ := hc.panic s evs s' hs
+          obtain ⟨sp, su, _⟩ := hc.panic s evs s' his hs
           obtain ⟨d1, d2, d3, d4⟩ := hc.drop s'
-          simp only [gives_append, drops_append, takes_append, uninit_append, drops_map_drop,
+          simp only [↓reduceIte, gives_append, drops_append, takes_append, uninit_append, drops_map_drop,
             gives_map_drop, takes_map_drop, uninit_map_drop, d1, d2, d3, d4, hu, su, List.append_nil, Res.ids]
           refine ⟨perm_of_counts fun a => ?_, trivial⟩
           have c1 := List.perm_iff_count.mp hp a
@@ -223,143 +248,186 @@ theorem drop_of_getElem? {l : List Id} {i : Nat} {x : Id} (h : l[i]? = some x) :
 theorem drop_of_getElem?_none {l : List Id} {i : Nat} (h : l[i]? = none) : l.drop i = [] :=
   List.drop_eq_nil_of_le (List.getElem?_eq_none_iff.mp h)
 
-theorem genSrc_contract (f : Nat → Option Id) : Contract (genSrc f) (fun _ => []) where
+theorem genSrc_contract (f : Nat → Option Id) : Contract (genSrc f) (fun _ => []) (fun _ => True) where
   yield := by
-    intro s evs x s' h
+    intro s evs x s' _ h
     simp only [genSrc] at h
     cases hf : f s <;> simp only [hf] at h <;> cases h
     simp [gives, drops, takes, uninitDrops, genSrc]
   done := by
-    intro s evs s' h
+    intro s evs s' _ h
     simp only [genSrc] at h
     cases hf : f s <;> simp only [hf] at h <;> cases h
   panic := by
-    intro s evs s' h
+    intro s evs s' _ h
     simp only [genSrc] at h
     cases hf : f s <;> simp only [hf] at h <;> cases h
     simp [gives, drops, takes, uninitDrops]
   drop := by intro s; simp [genSrc]
 
 def Consumer.owned (c : Consumer) : List Id := c.slots.drop c.pos
+def Consumer.Sync (c : Consumer) : Prop := c.idx = c.pos
 
 theorem consumer_dropEv (c : Consumer) :
     drops c.dropEv = c.owned ∧ gives c.dropEv = [] ∧ takes c.dropEv = [] ∧ uninitDrops c.dropEv = 0 := by
   simp only [Consumer.dropEv, Consumer.owned, drops_map_drop, gives_map_drop, takes_map_drop, uninit_map_drop]
   exact ⟨trivial, trivial, trivial, trivial⟩
 
-/-- owned `map`: with the position bumped *before* the closure runs, the consumer never owns an
-    element that the closure also owns. -/
-theorem mapSrc_contract (f : Nat → Option Id) : Contract (mapSrc true f) Consumer.owned where
-  yield := by
-    intro c evs x c' h
-    simp only [mapSrc] at h
-    cases hx : c.slots[c.pos]? <;> simp only [hx] at h
-    · cases h
-    · rename_i v
-      cases hf : f c.pos <;> simp only [hf] at h <;> cases h
-      simp only [Consumer.owned, drop_of_getElem? hx, gives, drops, takes, uninitDrops, mapSrc, if_true]
-      exact ⟨perm_of_counts fun a => by simp only [List.count_append, List.count_cons, List.count_nil]; omega, trivial⟩
-  done := by
-    intro c evs c' h
-    simp only [mapSrc] at h
-    cases hx : c.slots[c.pos]? <;> simp only [hx] at h
-    · cases h; simp [Consumer.owned]
-    · cases hf : f c.pos <;> simp only [hf] at h <;> cases h
-  panic := by
-    intro c evs c' h
-    simp only [mapSrc] at h
-    cases hx : c.slots[c.pos]? <;> simp only [hx] at h
-    · cases h
-    · cases hf : f c.pos <;> simp only [hf] at h <;> cases h
-      simp only [Consumer.owned, drop_of_getElem? hx, gives, drops, takes, uninitDrops, if_true]
-      exact ⟨perm_of_counts fun a => by simp only [List.count_append, List.count_cons, List.count_nil]; omega, trivial⟩
-  drop := by intro c; exact consumer_dropEv c
-
-theorem refSrc_contract (f : Nat → Option Id) : Contract (refSrc f) (fun _ => []) where
-  yield := by
-    intro c evs x c' h
-    simp only [refSrc] at h
-    cases hx : c.slots[c.pos]? <;> simp only [hx] at h
-    · cases h
-    · cases hf : f c.pos <;> simp only [hf] at h <;> cases h
-      simp [gives, drops, takes, uninitDrops, refSrc]
-  done := by
-    intro c evs c' h
-    simp only [refSrc] at h
-    cases hx : c.slots[c.pos]? <;> simp only [hx] at h
-    · cases h; simp
-    · cases hf : f c.pos <;> simp only [hf] at h <;> cases h
-  panic := by
-    intro c evs c' h
-    simp only [refSrc] at h
-    cases hx : c.slots[c.pos]? <;> simp only [hx] at h
-    · cases h
-    · cases hf : f c.pos <;> simp only [hf] at h <;> cases h
-      simp [gives, drops, takes, uninitDrops]
-  drop := by intro c; simp [refSrc]
-
 def Side.ownedOf (sd : Side) (c : Consumer) : List Id :=
   match sd with
   | .borrowed => []
+  | .manual => []
   | _ => c.owned
 
-def Zip2.owned (sa sb : Side) (z : Zip2) : List Id := sb.ownedOf z.b ++ sa.ownedOf z.a
-
+/-- a consumer side is *good* when it stores `pos + 1` (evaluated on in-sync positions) before the call -/
+def Side.GoodA : Side → Prop
+  | .consumer pn adv => adv = true ∧ ∀ p, pn p p = p + 1
+  | .manual => False
+  | _ => True
 theorem side_dropEv (sd : Side) (c : Consumer) :
     drops (sd.dropEv c) = sd.ownedOf c ∧ gives (sd.dropEv c) = [] ∧ takes (sd.dropEv c) = [] ∧
       uninitDrops (sd.dropEv c) = 0 := by
   cases sd <;> simp [Side.dropEv, Side.ownedOf, consumer_dropEv]
 
+/-- after its element was read, a good side is in sync again and owns exactly the rest -/
+theorem side_after_A (sd : Side) (hg : sd.GoodA) (c : Consumer) (hs : c.Sync) (ok : Bool) {x : Id}
+    (hx : c.slots[c.idx]? = some x) (q : Nat) (hq : q = c.pos) :
+    (sd.after c q ok).Sync ∧ sd.ownedOf c = (if sd.owns then [x] else []) ++ sd.ownedOf (sd.after c q ok) ∧
+    (sd.after c q ok).pos = c.pos + 1 := by
+  subst hq
+  unfold Consumer.Sync at hs
+  cases sd with
+  | consumer pn adv =>
+    obtain ⟨ha, hp⟩ := hg
+    subst ha
+    simp only [Side.after, Bool.or_true, if_true, hp, Consumer.Sync, Side.ownedOf, Consumer.owned, Side.owns, hs]
+    rw [hs] at hx
+    exact ⟨trivial, by rw [drop_of_getElem? hx]; rfl, trivial⟩
+  | owned =>
+    simp only [Side.after, Consumer.Sync, Side.ownedOf, Consumer.owned, Side.owns, if_true]
+    rw [hs] at hx
+    exact ⟨trivial, by rw [drop_of_getElem? hx, hs]; rfl, by omega⟩
+  | borrowed =>
+    simp only [Side.after, Consumer.Sync, Side.ownedOf, Side.owns, Bool.false_eq_true, if_false]
+    exact ⟨trivial, by simp, by omega⟩
+  | manual => exact hg.elim
+
 theorem gives_arg (o : Bool) (i x : Nat) : gives [arg o i x] = if o then [x] else [] := by
   cases o <;> simp [arg, gives]
 
-/-- every `zip` body, for every combination of sides, provided each consumer side bumps its
-    position before the closure is called (`keeps = false`). -/
-theorem zipSrc_contract (sa sb : Side) (f : Nat → Option Id) (ha : sa.keeps = false) (hb : sb.keeps = false) :
-    Contract (zipSrc sa sb f) (Zip2.owned sa sb) where
+theorem count_ite_single (o : Bool) (x a : Id) :
+    List.count a (if o = true then [x] else []) = if o = true then List.count a [x] else 0 := by
+  cases o <;> simp
+
+/-- one-input closure loops (`map` for every receiver form) -/
+theorem mapSrc_contract (sd : Side) (hg : sd.GoodA) (f : Nat → Option Id) :
+    Contract (mapSrc sd f) sd.ownedOf Consumer.Sync where
   yield := by
-    intro z evs x z' h
-    simp only [zipSrc] at h
-    cases hx : z.a.slots[z.a.pos]? <;> simp only [hx] at h
+    intro c evs x c' hi h
+    simp only [mapSrc] at h
+    cases hx : c.slots[c.idx]? <;> simp only [hx] at h
     · cases h
-    · cases hy : z.b.slots[z.b.pos]? <;> simp only [hy] at h
-      · cases h
-      · cases hf : f z.a.pos <;> simp only [hf] at h <;> cases h
-        refine ⟨perm_of_counts fun a => ?_, ?_⟩
-        · cases sa <;> cases sb <;>
-            simp only [Zip2.owned, Side.ownedOf, Consumer.owned, drop_of_getElem? hx, drop_of_getElem? hy,
-              gives, drops, takes, arg, Side.owns, zipSrc, if_true, Bool.false_eq_true, if_false,
-              List.count_append, List.count_cons, List.count_nil] <;> omega
-        · cases sa <;> cases sb <;> simp [arg, uninitDrops, Side.owns]
+    · rename_i v
+      cases hf : f c.idx <;> simp only [hf] at h <;> cases h
+      obtain ⟨s1, s2, _⟩ := side_after_A sd hg c hi true hx c.pos rfl
+      refine ⟨perm_of_counts fun a => ?_, ?_, s1⟩
+      · rw [s2]
+        cases ho : sd.owns <;>
+          simp only [arg, ho, gives, drops, takes, mapSrc, if_true, Bool.false_eq_true, if_false,
+            List.count_append, List.count_cons, List.count_nil] <;> omega
+      · cases ho : sd.owns <;> simp [arg, ho, uninitDrops]
   done := by
-    intro z evs z' h
-    simp only [zipSrc] at h
-    cases hx : z.a.slots[z.a.pos]? <;> simp only [hx] at h
-    · cases h; simp
-    · cases hy : z.b.slots[z.b.pos]? <;> simp only [hy] at h
-      · cases h
-        refine ⟨perm_of_counts fun a => ?_, ?_⟩
-        · cases sa <;> cases sb <;>
-            simp only [Zip2.owned, Side.ownedOf, Consumer.owned, drop_of_getElem? hx, drop_of_getElem?_none hy,
-              gives, drops, takes, if_true, reduceCtorEq, if_false,
-              List.count_append, List.count_cons, List.count_nil] <;> omega
-        · cases sa <;> simp [uninitDrops]
-      · cases hf : f z.a.pos <;> simp only [hf] at h <;> cases h
+    intro c evs c' hi h
+    simp only [mapSrc] at h
+    cases hx : c.slots[c.idx]? <;> simp only [hx] at h
+    · cases h; exact ⟨by simp, rfl, hi⟩
+    · cases hf : f c.idx <;> simp only [hf] at h <;> cases h
   panic := by
-    intro z evs z' h
-    simp only [zipSrc] at h
-    cases hx : z.a.slots[z.a.pos]? <;> simp only [hx] at h
+    intro c evs c' hi h
+    simp only [mapSrc] at h
+    cases hx : c.slots[c.idx]? <;> simp only [hx] at h
     · cases h
-    · cases hy : z.b.slots[z.b.pos]? <;> simp only [hy] at h
-      · cases h
-      · cases hf : f z.a.pos <;> simp only [hf] at h <;> cases h
-        refine ⟨perm_of_counts fun a => ?_, ?_⟩
-        · simp only [ha, hb, Bool.false_eq_true, if_false]
-          cases sa <;> cases sb <;>
-            simp only [Zip2.owned, Side.ownedOf, Consumer.owned, drop_of_getElem? hx, drop_of_getElem? hy,
-              gives, drops, takes, arg, Side.owns, if_true, Bool.false_eq_true, if_false,
+    · cases hf : f c.idx <;> simp only [hf] at h <;> cases h
+      obtain ⟨s1, s2, _⟩ := side_after_A sd hg c hi false hx c.pos rfl
+      refine ⟨perm_of_counts fun a => ?_, ?_, s1⟩
+      · rw [s2]
+        cases ho : sd.owns <;>
+          simp only [arg, ho, gives, drops, takes, if_true, Bool.false_eq_true, if_false,
+            List.count_append, List.count_cons, List.count_nil] <;> omega
+      · cases ho : sd.owns <;> simp [arg, ho, uninitDrops]
+  drop := by intro c; exact side_dropEv sd c
+
+def Zip2.owned (sa sb : Side) (z : Zip2) : List Id := sb.ownedOf z.b ++ sa.ownedOf z.a
+def Zip2.Sync (z : Zip2) : Prop :=
+  z.a.Sync ∧ z.b.Sync ∧ z.a.pos = z.b.pos ∧ z.a.slots.length = z.b.slots.length
+
+theorem side_after_slots (sd : Side) (c : Consumer) (q : Nat) (ok : Bool) : (sd.after c q ok).slots = c.slots := by
+  cases sd <;> rfl
+
+/-- every `zip` body, for every combination of sides, provided each consumer side stores the right
+    position before the closure is called. -/
+theorem zipSrc_contract (sa sb : Side) (f : Nat → Option Id) (ha : sa.GoodA) (hb : sb.GoodA) :
+    Contract (zipSrc sa sb f) (Zip2.owned sa sb) Zip2.Sync where
+  yield := by
+    intro z evs x z' hi h
+    obtain ⟨ia, ib, iab, ilen⟩ := hi
+    simp only [zipSrc] at h
+    cases hx : z.a.slots[z.a.idx]? <;> simp only [hx] at h
+    · cases h
+    · cases hy : z.b.slots[z.b.idx]? <;> simp only [hy] at h
+      · cases sa <;> cases h
+      · cases hf : f z.a.idx <;> simp only [hf] at h <;> cases h
+        obtain ⟨a1, a2, a3⟩ := side_after_A sa ha z.a ia true hx z.b.pos iab.symm
+        obtain ⟨b1, b2, b3⟩ := side_after_A sb hb z.b ib true hy z.a.pos iab
+        refine ⟨perm_of_counts fun a => ?_, ?_, a1, b1, ?_, ?_⟩
+        rotate_left 2
+        · show (sa.after z.a z.b.pos true).pos = (sb.after z.b z.a.pos true).pos
+          rw [b3, a3, iab]
+        · show (sa.after z.a z.b.pos true).slots.length = (sb.after z.b z.a.pos true).slots.length
+          rw [side_after_slots, side_after_slots]; exact ilen
+        · simp only [Zip2.owned]
+          rw [a2, b2]
+          cases hoa : sa.owns <;> cases hob : sb.owns <;>
+            simp only [arg, gives, drops, takes, zipSrc, if_true, Bool.false_eq_true, if_false,
               List.count_append, List.count_cons, List.count_nil] <;> omega
-        · cases sa <;> cases sb <;> simp [arg, uninitDrops, Side.owns]
+        · cases hoa : sa.owns <;> cases hob : sb.owns <;> simp [arg, uninitDrops]
+  done := by
+    intro z evs z' hi h
+    obtain ⟨ia, ib, iab, ilen⟩ := hi
+    simp only [zipSrc] at h
+    cases hx : z.a.slots[z.a.idx]? <;> simp only [hx] at h
+    · cases h; exact ⟨by simp, rfl, ia, ib, iab, ilen⟩
+    · cases hy : z.b.slots[z.b.idx]? <;> simp only [hy] at h
+      · -- `b` ran out first: impossible for equal lengths at equal indices
+        exfalso
+        have h1 := (List.getElem?_eq_some_iff.mp hx).1
+        have h2 := List.getElem?_eq_none_iff.mp hy
+        unfold Consumer.Sync at ia ib
+        omega
+      · cases hf : f z.a.idx <;> simp only [hf] at h <;> cases h
+  panic := by
+    intro z evs z' hi h
+    obtain ⟨ia, ib, iab, ilen⟩ := hi
+    simp only [zipSrc] at h
+    cases hx : z.a.slots[z.a.idx]? <;> simp only [hx] at h
+    · cases h
+    · cases hy : z.b.slots[z.b.idx]? <;> simp only [hy] at h
+      · cases sa <;> cases h
+      · cases hf : f z.a.idx <;> simp only [hf] at h <;> cases h
+        obtain ⟨a1, a2, a3⟩ := side_after_A sa ha z.a ia false hx z.b.pos iab.symm
+        obtain ⟨b1, b2, b3⟩ := side_after_A sb hb z.b ib false hy z.a.pos iab
+        refine ⟨perm_of_counts fun a => ?_, ?_, a1, b1, ?_, ?_⟩
+        rotate_left 2
+        · show (sa.after z.a z.b.pos false).pos = (sb.after z.b z.a.pos false).pos
+          rw [b3, a3, iab]
+        · show (sa.after z.a z.b.pos false).slots.length = (sb.after z.b z.a.pos false).slots.length
+          rw [side_after_slots, side_after_slots]; exact ilen
+        · simp only [Zip2.owned]
+          rw [a2, b2]
+          cases hoa : sa.owns <;> cases hob : sb.owns <;>
+            simp only [arg, gives, drops, takes, if_true, Bool.false_eq_true, if_false,
+              List.count_append, List.count_cons, List.count_nil] <;> omega
+        · cases hoa : sa.owns <;> cases hob : sb.owns <;> simp [arg, uninitDrops]
   drop := by
     intro z
     obtain ⟨a1, a2, a3, a4⟩ := side_dropEv sa z.a
@@ -368,27 +436,95 @@ theorem zipSrc_contract (sa sb : Side) (f : Nat → Option Id) (ha : sa.keeps = 
       Zip2.owned, List.append_nil]
     exact ⟨trivial, trivial, trivial, trivial⟩
 
-theorem scriptSrc_contract : Contract scriptSrc (fun _ => []) where
+theorem scriptSrc_contract : Contract scriptSrc (fun _ => []) (fun _ => True) where
   yield := by
-    intro s evs x s' h
+    intro s evs x s' _ h
     simp only [scriptSrc] at h
     split at h
     · cases h
     · split at h <;> cases h
       simp [gives, drops, takes, uninitDrops, scriptSrc]
   done := by
-    intro s evs s' h
+    intro s evs s' _ h
     simp only [scriptSrc] at h
     split at h
     · cases h
     · split at h <;> cases h
       simp [gives, drops, takes, uninitDrops]
   panic := by
-    intro s evs s' h
+    intro s evs s' _ h
     simp only [scriptSrc] at h
     split at h
     · cases h; simp [gives, drops, takes, uninitDrops]
     · split at h <;> cases h
   drop := by intro s; simp [scriptSrc]
+
+theorem foldSrc_contract (sd : Side) (hg : sd.GoodA) (f : Nat → Bool) :
+    Contract (foldSrc sd f) sd.ownedOf Consumer.Sync where
+  yield := by
+    intro c evs x c' hi h
+    simp only [foldSrc] at h
+    cases hx : c.slots[c.idx]? <;> simp only [hx] at h
+    · cases h
+    · split at h <;> cases h
+      obtain ⟨s1, s2, _⟩ := side_after_A sd hg c hi true hx c.pos rfl
+      refine ⟨perm_of_counts fun a => ?_, ?_, s1⟩
+      · rw [s2]
+        cases ho : sd.owns <;>
+          simp only [arg, ho, gives, drops, takes, foldSrc, if_true, Bool.false_eq_true, if_false,
+            List.count_append, List.count_cons, List.count_nil] <;> omega
+      · cases ho : sd.owns <;> simp [arg, ho, uninitDrops]
+  done := by
+    intro c evs c' hi h
+    simp only [foldSrc] at h
+    cases hx : c.slots[c.idx]? <;> simp only [hx] at h
+    · cases h; exact ⟨by simp, rfl, hi⟩
+    · split at h <;> cases h
+  panic := by
+    intro c evs c' hi h
+    simp only [foldSrc] at h
+    cases hx : c.slots[c.idx]? <;> simp only [hx] at h
+    · cases h
+    · split at h <;> cases h
+      obtain ⟨s1, s2, _⟩ := side_after_A sd hg c hi false hx c.pos rfl
+      refine ⟨perm_of_counts fun a => ?_, ?_, s1⟩
+      · rw [s2]
+        cases ho : sd.owns <;>
+          simp only [arg, ho, gives, drops, takes, if_true, Bool.false_eq_true, if_false,
+            List.count_append, List.count_cons, List.count_nil] <;> omega
+      · cases ho : sd.owns <;> simp [arg, ho, uninitDrops]
+  drop := by intro c; exact side_dropEv sd c
+
+/-- **Fold-loop ledger**: after a `fold` over any contract-abiding non-owning-yield source, every id
+    was given to the closure, dropped by the source's destructor (on a panic), or is still owned. -/
+theorem foldLoop_ledger {σ : Type} (S : Src σ) (owned : σ → List Id) (inv : σ → Prop)
+    (hc : Contract S owned inv) (hown : S.owns = false) (k : Nat) (s : σ) (hi : inv s) :
+    (gives (foldLoop S k s).1 ++ drops (foldLoop S k s).1 ++
+        (if (foldLoop S k s).2.1 then owned (foldLoop S k s).2.2 else [])).Perm
+      (owned s ++ takes (foldLoop S k s).1) ∧
+    uninitDrops (foldLoop S k s).1 = 0 := by
+  induction k generalizing s with
+  | zero => simp [foldLoop]
+  | succ k ih =>
+    cases hs : S.step s with
+    | yield evs x s' =>
+      obtain ⟨hp, hu, hi'⟩ := hc.yield s evs x s' hi hs
+      obtain ⟨ihp, ihu⟩ := ih s' hi'
+      simp only [foldLoop, hs, gives_append, drops_append, takes_append, uninit_append, hu, ihu]
+      refine ⟨perm_of_counts fun a => ?_, trivial⟩
+      have c1 := List.perm_iff_count.mp hp a
+      have c2 := List.perm_iff_count.mp ihp a
+      simp only [hown, Bool.false_eq_true, if_false, List.count_append, List.count_nil] at c1 c2 ⊢
+      omega
+    | done evs s' =>
+      obtain ⟨hp, hu, _⟩ := hc.done s evs s' hi hs
+      simp only [foldLoop, hs, hu, if_true]
+      exact ⟨hp, trivial⟩
+    | panic evs s' =>
+      obtain ⟨hp, hu, _⟩ := hc.panic s evs s' hi hs
+      obtain ⟨d1, d2, d3, d4⟩ := hc.drop s'
+      simp only [foldLoop, hs, gives_append, drops_append, takes_append, uninit_append, d1, d2, d3, d4, hu,
+        Bool.false_eq_true, if_false, List.append_nil]
+      exact ⟨by simpa [List.append_assoc] using hp, trivial⟩
 
 end GA.Own
